@@ -15,6 +15,38 @@ ASSUMPTIONS = [
 ]
 
 PROPS = {
+    "C04": {
+        "rule": "for each of the 13 algorithms one token signed by the harness through sdjwt::encode: (a) single-character substitutions and single-bit flips at 200 sampled "
+                "(quick) / all (thorough) positions of the three segments, (b) every (key, configured algorithm) pair of the 13x13 matrix, (c) the public key's PEM bytes used as "
+                "HMAC secret under every HMAC policy, (d) header rewritten to HS256 and re-signed with the public PEM as secret; each through decode, Holder::verify and "
+                "Verifier::verify. oracle: accepted iff untouched token, matching key, configured algorithm == signing algorithm. model run with the ideal signature oracle "
+                "(true exactly on the recorded signed token). non-trivial = any case other than the untouched token; distinct = distinct (kind,input)",
+        "explanation": "",
+        "trusted_base": ["ideal_sig premise of C04_only_exact: unforgeability is a computational assumption about RustCrypto, not proved",
+                         "jwt_rustcrypto::decode is a modelled dependency (Jwt.v), validated by this correspondence run only"],
+        "assumptions": ["signature malleability, constant-time comparison and key parsing are runtime/crate behaviour the model does not exhibit"],
+    },
+    "C16": {
+        "rule": "all 2^9 subsets of the optional header fields (typ cty jku kid x5u x5c x5t x5t_s256 crit) x value classes (ASCII, empty, non-ASCII, quotes/backslashes, long; "
+                "lists of length 0/1/3) on HS256 (2 rounds quick / 30 thorough), plus sampled subsets on all 13 algorithms; Issuer::new(..).header(h).encode, then decode, "
+                "Holder::verify, Verifier::verify. oracle: returned header == {alg} + exactly the set fields under their member names; the model's build_header+serialisation "
+                "must print the header the token carries. non-trivial = at least one optional field set; distinct = distinct (kind,input)",
+        "explanation": "",
+        "trusted_base": ["serde serialisation of the JWT library's header type is an oracle (jheader_json mirrors its declared member names)"],
+        "assumptions": ["the embedded-JWK header field is excluded (the JWT library re-types it), as in the property"],
+    },
+    "C11": {
+        "rule": "(i) every transition of the closure: all policies reachable from default()/new(HS256)/new(ES256) by 14 builder steps (2 audiences, 2 issuers, 2 subjects, leeway 0/60, "
+                "3 algorithms, 2 required-claim names), each step applied to each reachable policy in the implementation and in the model, frame condition judged on the "
+                "observed policies; (ii) for 300 sampled (quick) / all (thorough) reachable policies (validate_nbf switched on in a third): one token satisfying every constraint and "
+                "tokens violating exactly one (exp past / within leeway / missing / string, nbf future / within leeway / missing, aud other / array / missing, iss, sub, required "
+                "claim missing, other algorithm), margins 30 s, through decode, Holder::verify and Verifier::verify. non-trivial = any builder transition or violating token; "
+                "distinct = distinct (kind,input)",
+        "exhaustive": True,
+        "explanation": "the builder closure is enumerated completely (finite alphabet); enforcement is sampled in the quick tier",
+        "trusted_base": ["jwt_rustcrypto::validate and decode are a modelled dependency (Jwt.v), validated by this correspondence run only"],
+        "assumptions": ["time values for which exp+leeway or nbf-leeway overflow u64 are excluded (known finding KF-1 of C10)"],
+    },
     "C05": {
         "rule": "bound reference-issued tokens (cnf = RSA JWK, sha-256/384/512) presented with harness-crafted KB-JWTs: 28 kinds cycling - valid (policy aud set / unset / aud array), "
                 "signed by another RSA key, other algorithm, typ missing / JWT-like, sd_hash over another string / the JWT only / the presentation without its final '~' / under "
